@@ -149,22 +149,59 @@ func ruleT2(c *Ctx) {
 	names := eventMethodNames(m)
 	evConst := eventConsts(m)
 	isSet := m.method(pkgAPI, "EventMask", "IsSet")
+	preds := map[string]*ssa.Function{}
+	defer func() {
+		// sibling agreement: all relays decide subscription with the same predicate
+		var first *ssa.Function
+		same := true
+		for _, n := range sortedKeys(preds) {
+			if first == nil {
+				first = preds[n]
+			} else if preds[n] != first {
+				same = false
+			}
+		}
+		c.ok("T2", "same-predicate", token.NoPos, same && len(preds) >= 5, "all relays decide subscription with the same predicate",
+			"relays use different subscription tests (some a wrapper, some the raw mask): a mask convention honoured by one (e.g. empty = everything) is ignored by another, so that event is never delivered to such plugins")
+	}()
 	for _, f := range requestRelays(m) {
 		rpc, g := rpcCallIn(m, f)
 		what := fmt.Sprintf("relay %s calls %s only if the plugin subscribed to that event", f.Name(), g.Name())
 		bad := ""
 		var test *ssa.Call
+		pred := isSet
 		for _, ci := range m.callsTo(f, isSet) {
 			test, _ = ci.(*ssa.Call)
 		}
 		if test == nil {
+			// a wrapper predicate on the plugin: a *plugin method taking the event whose body consults events.IsSet with it
+			for _, ci := range calls(f) {
+				g := m.callee(ci.Common())
+				if g == nil || recvNamed(g) == nil || recvNamed(g).Obj().Name() != "plugin" || len(g.Params) != 2 {
+					continue
+				}
+				for _, cj := range m.callsTo(g, isSet) {
+					if a := m.ap(cj.Common().Args[0]); a.Root == ssa.Value(g.Params[0]) && a.PathString() == "events" && cj.Common().Args[1] == ssa.Value(g.Params[1]) {
+						if call, ok := ci.(*ssa.Call); ok {
+							test, pred = call, g
+						}
+					}
+				}
+			}
+		}
+		preds[f.Name()] = pred
+		if test == nil {
 			c.violate("T2", f.Name(), f.Pos(), what, "the relay does not consult the subscription mask: unsubscribed plugins are invoked")
 			continue
 		}
-		// receiver: &p.events of the relay's own receiver
+		// receiver: &p.events of the relay's own receiver (or the relay's receiver itself for a wrapper predicate)
 		ra := m.ap(test.Call.Args[0])
-		if ra.Root != ssa.Value(f.Params[0]) || ra.PathString() != "events" {
-			bad = "the mask consulted is not the receiver plugin's own"
+		if pred == isSet {
+			if ra.Root != ssa.Value(f.Params[0]) || ra.PathString() != "events" {
+				bad = "the mask consulted is not the receiver plugin's own"
+			}
+		} else if test.Call.Args[0] != ssa.Value(f.Params[0]) {
+			bad = "the subscription predicate is not asked of the receiver plugin"
 		}
 		// event argument
 		arg := test.Call.Args[1]
